@@ -151,6 +151,52 @@ def replay_selftest():
         lis_phys.ref_read = real_ref
 
 
+def stub_fidelity(n_scenarios):
+    """SimPool against the real multiprocessing.Pool: same result dict and same output tree (minus CREA) on
+    scenarios without violations (DESIGN 2.5)."""
+    from sim import seeds, runner
+    from checks import c12
+    from worlds import batch
+    c12.setup()
+    import logging
+    import warnings
+    logging.disable(logging.CRITICAL)
+    warnings.simplefilter('ignore')
+    done = 0
+    i = 0
+    while done < n_scenarios and i < n_scenarios * 20:
+        sc = c12.generate(seeds.derive('selftest-fidelity', i), 'quick')
+        i += 1
+        pool_runs = [r for r in sc['runs'] if r['mode'] == 'pool']
+        if not pool_runs:
+            continue
+        def both(sc=sc, run=pool_runs[0]):
+            br = batch.BatchRun(sc)
+            try:
+                a = br.run('sim', run)
+                b = br.run('real', dict(run, mode='realpool'))
+                al = {rel: br.run(f'alone{k}', {'mode': 'alone'}, alone=rel)['tree'] for k, rel in enumerate(br.inputs)}
+                owners = {}
+                collide = False
+                for rel, t in al.items():
+                    for pth in t:
+                        collide = collide or pth in owners
+                        owners[pth] = rel
+                return {'a': [a['status'], sorted(a['results'].items()), sorted((k, seeds.digest(v)) for k, v in a['tree'].items())],
+                        'b': [b['status'], sorted(b['results'].items()), sorted((k, seeds.digest(v)) for k, v in b['tree'].items())], 'collide': collide}
+            finally:
+                br.cleanup()
+        out = runner.exec_in_child(lambda _sc: both(), sc, timeout=120)
+        if 'harness_error' in out:
+            raise RuntimeError('stub fidelity: ' + out['harness_error'][-800:])
+        if out['collide']:
+            continue       # KF-C12-1: outcome legitimately depends on real scheduling
+        if out['a'] != out['b']:
+            raise RuntimeError(f'stub fidelity: SimPool and multiprocessing.Pool disagree on scenario {i - 1}: {json.dumps(out)[:1500]}')
+        done += 1
+    return done
+
+
 def _exec_lenient(sc):
     from checks import c05
     from worlds import lis_phys
@@ -183,9 +229,10 @@ def main(argv=None):
         rep = determinism(quick)
         print(f'selftest: determinism ok {json.dumps({k: v["runs"] for k, v in rep.items()})} run indices x 2 executions '
               f'(16 vs 3 worker processes, PYTHONHASHSEED 0 vs 12345, fresh interpreters)')
-        if not quick or True:
-            r = replay_selftest()
-            print(f'selftest: minimise + replay ok {json.dumps(r)}')
+        r = replay_selftest()
+        print(f'selftest: minimise + replay ok {json.dumps(r)}')
+        n = stub_fidelity(3 if quick else 40)
+        print(f'selftest: stub fidelity ok: SimPool == real multiprocessing.Pool (results and output trees) on {n} scenarios')
     except Exception as err:
         import traceback
         print('HARNESS-ERROR selftest: ' + ''.join(traceback.format_exception_only(type(err), err)).strip(), file=sys.stderr)
